@@ -9,6 +9,7 @@
    [current] / [icurrent] = the code in /repo (HEAD, after the two `fix:` commits cdbba24 and a0cd6c8 this
    property led to); [ilegacy] = _get_task_args before them, kept for the `_legacy_refuted` statements.  [md5], [size_of], the set-iteration oracles are arbitrary. *)
 From DoitV Require Import Base Dispatch Runner DispatchP DispatchInv RunnerP.
+From DoitV Require Parallel ParallelP.
 From DoitV Require Import Status History StatusP HistoryP Inputs InputsP.
 Open Scope Z_scope.
 
@@ -351,15 +352,9 @@ Print Assumptions C10_calc_dep_merged.
 
 (* dispatcher level, ordering: from any state satisfying the dispatcher invariants (all states of a
    serial run do: Proofs/RunnerP.v), the task handed to the runner has every CURRENT dependency --
-   declared or merged from a calc result -- final, and the lists never shrink.
-   PARTIAL: what is not composed here is the trace-level corollary "in run_serial, when EExecute k is
-   emitted, every task returned by a calc_dep of k whose values were visible has its final event
-   before".  Missing for it: (1) an invariant that at hand-over every calc_dep of the node has been
-   through process_calc (each name of n_all_calc is pending, in flight, in wait_run_calc, or final and
-   merged), to be carried through gen_step / wake like node_ok.ok_acc; (2) stability of the status of a
-   finished task (a task in its setup phase keeps status `run` until handed over again).  The
-   correspondence check exercises the composition (calc tasks returning task_dep / file_dep). *)
-Theorem C10_calc_dep_effective_partial :
+   declared or merged from a calc result -- final, and the lists never shrink.  (State-level lemma;
+   the trace-level statement is C10_calc_dep_effective below.) *)
+Theorem C10_calc_dep_handover :
   forall tasks wake_rank calc_rank fuel d p k d',
     Inv tasks d -> Pre tasks d -> AllRes tasks d -> QInv d ->
     (forall z, p = Some z -> Dispatch.st_of tasks d z <> SNone) ->
@@ -367,7 +362,37 @@ Theorem C10_calc_dep_effective_partial :
     (forall x, In x (n_all_task (Dispatch.node_of tasks d' k) ++ n_all_calc (Dispatch.node_of tasks d' k)) -> final tasks d' x) /\
     all_grows tasks d d'.
 Proof. exact handed_dynamic_deps_final. Qed.
-Print Assumptions C10_calc_dep_effective_partial.
+Print Assumptions C10_calc_dep_handover.
+
+(* THE TRACE-LEVEL STATEMENT (proved once the dispatcher invariants `recd` and `mrgd` of
+   Proofs/DispatchInv.v were available: every finished dependency is recorded, and the visible values of
+   every finished calc_dep are merged into the waiting node's lists, before the node is handed over;
+   statuses of finished tasks never change): in every serial run, when the actions of t start, every
+   task returned by a calc_dep c of t -- task_dep, producers of the returned file_dep, further calc_dep,
+   and transitively what THOSE calc tasks return -- has been reported successful or up-to-date; in
+   particular it finished before t started and t runs with the merged dependencies. *)
+Theorem C10_calc_dep_effective :
+  forall tasks wake_rank calc_rank continue_ always fuel selection pre t post c y,
+    fst (run_serial tasks wake_rank calc_rank continue_ always fuel selection) = pre ++ EExecute t :: post ->
+    eff_calc tasks t c -> In y (calc_results tasks c) -> good_in pre y.
+Proof.
+  intros tasks wake_rank calc_rank continue_ always fuel selection pre t post c y E Hc Hy.
+  apply (cordered_split tasks _ (serial_contained tasks wake_rank calc_rank continue_ always fuel selection) pre t post E y).
+  eapply ed_dyn; eauto.
+Qed.
+Print Assumptions C10_calc_dep_effective.
+
+(* ... and under every schedule of the parallel runners *)
+Theorem C10_calc_dep_effective_parallel :
+  forall tasks wake_rank calc_rank continue_ always proc fuel nprocs sched selection pre t w post c y,
+    fst (Parallel.run_parallel tasks wake_rank calc_rank continue_ always proc fuel nprocs sched selection) = pre ++ Parallel.PStart t w :: post ->
+    eff_calc tasks t c -> In y (calc_results tasks c) -> ParallelP.pgood pre y.
+Proof.
+  intros tasks wake_rank calc_rank continue_ always proc fuel nprocs sched selection pre t w post c y E Hc Hy.
+  apply (ParallelP.pcordered_split tasks _ (ParallelP.parallel_contained tasks wake_rank calc_rank continue_ always proc fuel nprocs sched selection) pre t w post E y).
+  eapply ed_dyn; eauto.
+Qed.
+Print Assumptions C10_calc_dep_effective_parallel.
 
 (* non-vacuity: task 1 has calc_dep 5, which returns task_dep [2]; 2 is executed before 1 *)
 Example C10_calc_nonvacuous :
